@@ -465,7 +465,9 @@ func (h *vHarness) runScenario(sc vScenario) {
 				c.Close()
 			}
 			h.emit(map[string]any{"ev": "Load", "cfg": vCfgJSON(st.Cfg), "frn": vFrn(st.Frn), "ok": err == nil, "err": fmt.Sprint(err)})
-			h.probe(m, "after-load")
+			if sc.Mode != "noprobe" { // probes are authenticated handshakes themselves: they would fill the replay history
+				h.probe(m, "after-load")
+			}
 		case "Stopped":
 			// part of the preceding successful Load in ungated mode
 		case "Replay":
@@ -475,7 +477,9 @@ func (h *vHarness) runScenario(sc vScenario) {
 	server.Stop()
 	time.Sleep(10 * time.Millisecond)
 	h.emit(map[string]any{"ev": "Load", "cfg": vCfgJSON(vCfg{Kind: "stop"}), "frn": [][]interface{}{}, "ok": true, "err": ""})
-	h.probe(m, "after-stop")
+	if sc.Mode != "noprobe" {
+		h.probe(m, "after-stop")
+	}
 }
 
 // replayStep (C07 system level): present a handshake (fresh or a byte-identical copy of an earlier one) on a listener
